@@ -349,12 +349,93 @@ func runC09(c *Ctx) {
 				}
 				return mk && rec && sw
 			}
+			// the copier itself: every container is copied (only a nil one is handed back as it is), and a container
+			// is entered in the memo before its elements are visited (a value can contain itself)
+			checkedCopier := map[*ssa.Function]bool{}
+			checkCopier := func(f *ssa.Function) {
+				if checkedCopier[f] {
+					return
+				}
+				checkedCopier[f] = true
+				var memo *ssa.Parameter
+				for _, p := range f.Params {
+					if _, isMap := p.Type().Underlying().(*types.Map); isMap {
+						memo = p
+					}
+				}
+				kk := 0
+				eachInstr(f, func(_ *ssa.BasicBlock, _ int, ins ssa.Instruction) {
+					ta, ok := ins.(*ssa.TypeAssert)
+					if !ok || !ta.CommaOk {
+						return
+					}
+					switch ta.AssertedType.Underlying().(type) {
+					case *types.Map, *types.Slice:
+					default:
+						return
+					}
+					for _, v := range extractOf(ta, 0) {
+						kk++
+						// (i) returned as it is only when nil
+						eachInstr(f, func(_ *ssa.BasicBlock, _ int, x ssa.Instruction) {
+							r, ok := x.(*ssa.Return)
+							if !ok || len(r.Results) == 0 {
+								return
+							}
+							mi, ok := r.Results[0].(*ssa.MakeInterface)
+							if !ok || mi.X != v {
+								return
+							}
+							q := &pathQuery{fn: f, target: func(y ssa.Instruction) bool { return y == x }, cutEdge: func(b *ssa.BasicBlock, si int) bool {
+								iff := ifOf(b)
+								if iff == nil {
+									return false
+								}
+								bo, ok := iff.Cond.(*ssa.BinOp)
+								if !ok || !((bo.X == v && isNilConst(bo.Y)) || (bo.Y == v && isNilConst(bo.X))) {
+									return false
+								}
+								return (bo.Op == token.EQL && si == 0) || (bo.Op == token.NEQ && si == 1)
+							}}
+							hit, path := q.fromEntry()
+							c.ob("C09-R2", fnKey(f)+"#container-"+itoa(kk)+"-handed-back-uncopied-only-when-nil", r.Pos(), hit == nil, "the copier hands a container back as it is on a path that has not established that it is nil (an empty one, say): the usual `$ acc = {}` accumulator is then one Go map in parent and block, and the first writes on both sides are a concurrent map write", c.blockPath(path)...)
+						})
+						// (ii) memo before the elements
+						if memo == nil {
+							c.ob("C09-R2", fnKey(f)+"#container-"+itoa(kk)+"-entered-in-the-memo-before-its-elements", ta.Pos(), false, "the copier keeps no record of the containers it has entered: a value that contains itself (`$ node.parent = node`, `a[0] = a`) is copied for ever - a stack overflow that no recover() stops, as soon as such a value is in scope of an async block")
+							continue
+						}
+						var rec []ssa.Instruction
+						eachInstr(f, func(_ *ssa.BasicBlock, _ int, x ssa.Instruction) {
+							if cl, ok := x.(*ssa.Call); ok && staticFn(cl) == f {
+								if derivesFrom(cl.Call.Args[0], func(z ssa.Value) bool { return z == v }) {
+									rec = append(rec, x)
+								}
+							}
+						})
+						for ri, rc := range rec {
+							q := &pathQuery{fn: f, target: func(y ssa.Instruction) bool { return y == rc }, stop: func(y ssa.Instruction) bool {
+								mu, ok := y.(*ssa.MapUpdate)
+								return ok && mu.Map == ssa.Value(memo)
+							}}
+							hit, path := q.fromEntry()
+							c.ob("C09-R2", fnKey(f)+"#container-"+itoa(kk)+"-entered-in-the-memo-before-its-elements-"+itoa(ri+1), rc.Pos(), hit == nil, "the copier visits the elements of a container before (or without) recording the container in its memo: a value that contains itself is copied for ever - a stack overflow that no recover() stops", c.blockPath(path)...)
+						}
+					}
+				})
+			}
 			nBind := 0
 			eachInstr(fn, func(_ *ssa.BasicBlock, _ int, ins ssa.Instruction) {
 				mu, ok := ins.(*ssa.MapUpdate)
 				if !ok || !derivesFrom(mu.Map, func(v ssa.Value) bool { return loadedFromField(v, "Environment", "vars") }) {
 					return
 				}
+				derivesFrom(mu.Value, func(v ssa.Value) bool {
+					if cl, ok := v.(*ssa.Call); ok && isCopier(staticFn(cl)) {
+						checkCopier(staticFn(cl))
+					}
+					return false
+				})
 				nBind++
 				copied := derivesFrom(mu.Value, func(v ssa.Value) bool {
 					cl, ok := v.(*ssa.Call)
